@@ -981,6 +981,16 @@ class Exec:
         cur = st.env.get("yielded")
         if cur is None:
             raise Unsupported("yield without `yields` type in the contract")
+        if v.t is RECORD and isinstance(cur.t.elem, TTuple):
+            # a record (e.g. frame = rows + index) is yielded as the tuple of its fields; fields re-assigned
+            # through `name.field = ...` take precedence
+            fields = []
+            for k, fname in enumerate(v.py):
+                fv = v.py[fname]
+                if isinstance(y.value, ast.Name) and (y.value.id + "." + fname) in st.env:
+                    fv = st.env[y.value.id + "." + fname]
+                fields.append(self.coerce(fv, cur.t.elem.elems[k]))
+            v = SV(cur.t.elem, cur.t.elem.mk([f.z for f in fields]))
         v = self.coerce(v, cur.t.elem)
         ln = self.seq_len(cur)
         st.env["yielded"] = SV(cur.t, cur.t.mk(z3.Store(cur.t.arr(cur.z), ln, v.z), ln + 1))
